@@ -340,7 +340,17 @@ def outcome_of(call, pr=None):
             msg = str(e)[:120]
         except BaseException:  # noqa: BLE001 - the injected exception that cannot be printed
             msg = "<unprintable>"
-        return {"kind": "raise", "type": type(e).__name__, "is_injected": pr is not None and e is pr.injected, "msg": msg}
+        # the traceback the caller gets still leads into the callable (a driver that re-raises the object "cleanly",
+        # with_traceback(None), hands over the same object without the place it came from)
+        reaches = None
+        if pr is not None and e is pr.injected:
+            reaches, tb = False, e.__traceback__
+            while tb is not None:
+                if tb.tb_frame.f_code is Probe.__call__.__code__:
+                    reaches = True
+                    break
+                tb = tb.tb_next
+        return {"kind": "raise", "type": type(e).__name__, "is_injected": pr is not None and e is pr.injected, "msg": msg, "tb_reaches_callable": reaches}
 
 
 def invoke(case, plan):
@@ -407,6 +417,9 @@ def judge(case, plan, r0, out, pr):
         if not out["is_injected"]:
             return ("F1_error_replaced", f"the callable raised {plan['exc']} on its first invocation but the driver raised {out['type']}: {out['msg']!r} "
                     f"instead of that exception object (callable invoked {pr.calls} times)")
+        if out.get("tb_reaches_callable") is False:
+            return ("F1_error_modified", f"the callable raised {plan['exc']} on its first invocation and the driver raised that object, but its traceback "
+                    f"no longer leads into the callable: the place the error came from is gone")
         now = exc_state(pr.injected)
         if now != pr.injected_state:
             return ("F1_error_modified", f"the callable raised {plan['exc']} on its first invocation and the driver raised that object, but not unchanged: "
